@@ -136,6 +136,17 @@ func genPlan(t *rapid.T) Plan {
 			st.Kind = KRetention
 		case k < 28:
 			st.Kind, st.Node, st.Expiry = KPrimary, rapid.IntRange(0, nn-1).Draw(t, "newprimary"), rapid.Bool().Draw(t, "expiry")
+			if rapid.Bool().Draw(t, "fork_at_equal_height") {
+				// the node that is going to take over misses one transaction, and commits one of
+				// its own afterwards: two histories of the same length
+				w := func(tag string) Step {
+					tx := pager.WalTx{Tx: gen.Txs(t, 1, 600)[0]}
+					tx.Rollback, tx.NoWrite = false, false
+					return Step{Kind: KWrite, DB: st.DB, Tx: tx}
+				}
+				p.Steps = append(p.Steps, Step{Kind: KQuiesce}, Step{Kind: KPause, Node: st.Node}, w("before"), st, w("after"))
+				continue
+			}
 		case k < 29:
 			st.Kind = KRead
 		default:
